@@ -22,13 +22,31 @@
      get_type / method-name lookups are for declared terminals, table reads are in range, and
        the template regenerated from table_to_rust.rs on this run has no unbound hole
        (Emit/NoPanic.v, re-checked by vm_compute).
-   NOT proved: that the model's fuel always suffices (the "no hang" half is modelled, not
-   proved, except for the tokenizer and the front-end parse loop below); host stack depth.
+   AND the "never loops" half, for EVERY string (Totality.v, Build/Terminates.v, Emit/NoFuel.v):
+   with the fuel of every loop left as a parameter (generate_full_gen; generate_full is the instance
+   with the fixed fuel the check runs the model with), the model returns Ok or Err — not Panic, not
+   OutOfFuel — for every fuel above an explicit bound computed from the input
+   (C07_generate_is_total), and any larger fuel gives the same result (C07_fuel_is_only_a_bound).
+   Why each loop ends:
+     tokenizer          structural recursion on the text;
+     front-end parse    potential function checked against the regenerated tables (certificate);
+     FIRST fixpoint     every pass that reports a change adds a terminal or a nullable flag to a map
+                        whose entries are bounded by the terminals occurring in the rules;
+     closure            every inserted item is new and lies in a finite universe of items
+                        (rule x dot x lookahead), and brings a bounded number of implied items;
+     worklist           states have pairwise distinct cores, so there are at most 2^|cores| of
+                        them, each with at most |universe| items; every re-queueing adds an item to
+                        a state: potential 2(bound - total size) + |queue| strictly decreases;
+     fresh names        X, X2, X3, ... are pairwise distinct (decimal rendering is injective), so
+                        one of the first |used|+1 is free.
+   NOT proved: host stack depth (recursion of the real front end on deeply nested types), and the
+   running TIME bound of the property (the bound on the number of loop iterations is exponential
+   in the number of LR(0) items, as it is for LALR construction in general).
    The check runs the crate on malformed and unusual inputs in-process under catch_unwind and in
    watchdog-guarded child processes, and requires Ok/Err equal to the model's result. *)
-From Coq Require Import List.
+From Coq Require Import List Arith.
 From Kiki Require Import Base.Ord Base.Chars Data Lex.Model Lex.NoPanic LR.Driver LR.Term LR.ValidateProofs Front.Parse Front.KikiValid
-  Build.Machine Build.Table Build.TableProofs Np Pipeline PipelineProofs.
+  Build.Machine Build.Table Build.TableProofs Build.FuelMono Build.Terminates Emit.NoFuel Np Nf Pipeline PipelineProofs Totality.
 From Kiki Require Gen.KikiAnn.
 
 Theorem C07_generate_never_panics : forall ho digest src site,
@@ -74,6 +92,32 @@ Proof.
                            end).
 Qed.
 
+(* ---------- total: Ok or Err, for every string, once the fuel is above an explicit bound ---------- *)
+Theorem C07_generate_is_total : forall ff fb ho digest src,
+  perm_hash_order ho -> (forall n, front_enough n <= ff n) -> (forall v, fuels_le (fuels_enough v) (fb v)) ->
+  (exists r, generate_full_gen ff fb ho digest src = Ok r) \/ (exists e, generate_full_gen ff fb ho digest src = Err e).
+Proof. exact generate_is_total. Qed.
+
+Theorem C07_fuel_is_only_a_bound : forall ff ff' fb fb' ho digest src,
+  (forall site, generate_full_gen ff fb ho digest src <> OutOfFuel site) ->
+  (forall n, ff n <= ff' n) -> (forall v, fuels_le (fb v) (fb' v)) ->
+  generate_full_gen ff' fb' ho digest src = generate_full_gen ff fb ho digest src.
+Proof. exact generate_gen_mono. Qed.
+
+(* the model as the check runs it is the instance with the fixed fuel, and whenever it does not
+   report OutOfFuel its result is the one every larger fuel gives *)
+Theorem C07_checked_model_is_an_instance : forall ho digest src,
+  generate_full ho digest src = generate_full_gen front_fuel (fuels_for 0) ho digest src.
+Proof. exact generate_full_is_an_instance. Qed.
+
+(* the hypotheses on the fuel are satisfiable *)
+Example C07_enough_fuel_exists :
+  (forall n, front_enough n <= front_enough n) /\ (forall v, fuels_le (fuels_enough v) (fuels_enough v)).
+Proof. split; [intros; apply Nat.le_refl|]. intros v. repeat split; apply Nat.le_refl. Qed.
+
+Print Assumptions C07_generate_is_total.
+Print Assumptions C07_fuel_is_only_a_bound.
+Print Assumptions C07_checked_model_is_an_instance.
 Print Assumptions C07_front_end_loop_never_panics.
 Print Assumptions C07_tokenizer_never_panics.
 Print Assumptions C07_front_end_loop_terminates.
